@@ -43,6 +43,8 @@ pub struct Outcome {
     pub saved: Option<Value>,
     /// refresh_node_registry ran to completion in this invocation
     pub refreshed: bool,
+    /// number of OS/RPC calls made when the registry was last saved in this invocation
+    pub last_save_seq: Option<u32>,
     /// names returned by add_node
     pub added: Vec<String>,
 }
@@ -84,6 +86,9 @@ pub struct World<'a> {
     pub removed_idx: BTreeSet<usize>,
     /// binaries whose process died by an external event while recorded Running, not re-recorded since
     pub stale: BTreeSet<String>,
+    /// binaries whose process died in the middle of the current invocation -> call count right after the
+    /// manager's first pid lookup that could see it (None: never looked up again)
+    pub mid_deaths: BTreeMap<String, (Option<u32>, u32)>,
     pub intended: BTreeMap<String, Intended>,
     /// (step index, env set) of every add command that carried --env
     pub env_adds: Vec<(usize, u8)>,
@@ -111,6 +116,9 @@ pub fn execute(plan: &Plan, entropy: u64) -> RunReport {
             let mut p = plan.clone();
             p.enumerate = None;
             p.all_prefixes = false;
+            if let Some(d) = p.steps.get_mut(s).and_then(|st| st.die_at_mut()) {
+                *d = None;
+            }
             match p.steps.get_mut(s).and_then(|st| st.fail_mut()) {
                 Some(f) => *f = vec![i],
                 None => break,
@@ -171,6 +179,7 @@ fn run_once(plan: &Plan, entropy: u64, rep: &mut RunReport, prefix: &str) -> Vec
             prev: serde_json::json!({"nodes": []}),
             removed_idx: BTreeSet::new(),
             stale: BTreeSet::new(),
+            mid_deaths: BTreeMap::new(),
             intended: BTreeMap::new(),
             env_adds: vec![],
             checked_installs: 0,
@@ -305,10 +314,17 @@ impl<'a> World<'a> {
 
     /// Log the calls of the finished operation, count fired faults.
     fn end_op(&mut self, i: usize) -> Vec<(u32, &'static str)> {
-        let (calls, fired) = {
+        let (calls, fired, died) = {
             let os = self.os.lock();
-            (os.calls.clone(), os.fired.clone())
+            (os.calls.clone(), os.fired.clone(), os.mid_op_killed.clone())
         };
+        self.mid_deaths.clear();
+        for (bin, _label, observed, pid) in died {
+            self.mid_deaths.insert(bin.to_string_lossy().to_string(), (observed, pid));
+            // an external death, like Step::Kill, only in the middle of the invocation
+            self.rep.fault("external:process_dies_mid_operation");
+            self.stale.insert(bin.to_string_lossy().to_string());
+        }
         for c in calls {
             self.log(format!("    os: {c}"));
         }
@@ -351,26 +367,30 @@ impl<'a> World<'a> {
                 self.check_add(i, opts, &out, &pre, &fired);
                 self.check_installs(i, step, &pre, &fired);
             }
-            Step::Start { sel, interval, fail, silent } => {
+            Step::Start { sel, interval, fail, silent, die_at } => {
                 self.begin_op(i, fail, *silent);
+                self.os.lock().die_at = *die_at;
                 let out = self.glue_start(sel, *interval).await;
                 let fired = self.end_op(i);
                 self.finish_service_op(i, step, out, &pre, &fired);
             }
-            Step::Stop { sel, fail } => {
+            Step::Stop { sel, fail, die_at } => {
                 self.begin_op(i, fail, false);
+                self.os.lock().die_at = *die_at;
                 let out = self.glue_stop(sel).await;
                 let fired = self.end_op(i);
                 self.finish_service_op(i, step, out, &pre, &fired);
             }
-            Step::Remove { sel, keep_dirs, fail } => {
+            Step::Remove { sel, keep_dirs, fail, die_at } => {
                 self.begin_op(i, fail, false);
+                self.os.lock().die_at = *die_at;
                 let out = self.glue_remove(sel, *keep_dirs).await;
                 let fired = self.end_op(i);
                 self.finish_service_op(i, step, out, &pre, &fired);
             }
-            Step::Upgrade { sel, force, do_not_start, ver, env, interval, fail, silent } => {
+            Step::Upgrade { sel, force, do_not_start, ver, env, interval, fail, silent, die_at } => {
                 self.begin_op(i, fail, *silent);
+                self.os.lock().die_at = *die_at;
                 let out = self.glue_upgrade(sel, *force, *do_not_start, *ver, *env, *interval).await;
                 let fired = self.end_op(i);
                 self.finish_service_op(i, step, out, &pre, &fired);
@@ -687,6 +707,7 @@ impl<'a> World<'a> {
                     return out.fail(format!("registry save: {e}"));
                 }
                 out.saved = Self::snapshot(&reg);
+            out.last_save_seq = Some(self.os.lock().seq_no);
             }
             Err(e) => {
                 // `add_node(...).await?` in the glue: no final save; what add_node saved itself stays
@@ -733,6 +754,7 @@ impl<'a> World<'a> {
                         return out.fail(format!("registry save: {e}"));
                     }
                     out.saved = Self::snapshot(&reg);
+            out.last_save_seq = Some(self.os.lock().seq_no);
                 }
                 Err(e) => {
                     failed += 1;
@@ -776,6 +798,7 @@ impl<'a> World<'a> {
                         return out.fail(format!("registry save: {e}"));
                     }
                     out.saved = Self::snapshot(&reg);
+            out.last_save_seq = Some(self.os.lock().seq_no);
                 }
                 Err(e) => {
                     failed += 1;
@@ -819,6 +842,7 @@ impl<'a> World<'a> {
                         return out.fail(format!("registry save: {e}"));
                     }
                     out.saved = Self::snapshot(&reg);
+            out.last_save_seq = Some(self.os.lock().seq_no);
                 }
                 Err(e) => {
                     failed += 1;
@@ -926,6 +950,7 @@ impl<'a> World<'a> {
                 return out.fail(format!("registry save: {e}"));
             }
             out.saved = Self::snapshot(&reg);
+            out.last_save_seq = Some(self.os.lock().seq_no);
         }
         if problem {
             out.overall = Some("There was a problem upgrading one or more nodes".into());
@@ -949,6 +974,7 @@ impl<'a> World<'a> {
                 return out.fail(format!("registry save: {e}"));
             }
             out.saved = Self::snapshot(&reg);
+            out.last_save_seq = Some(self.os.lock().seq_no);
         }
         out
     }
@@ -964,11 +990,11 @@ fn describe(step: &Step) -> String {
         Sel::Name(k) => format!("name#{k}"),
     };
     match step {
-        Step::Start { sel: s, interval, fail, silent } => format!("{} interval={interval} fail={fail:?} silent={silent}", sel(s)),
-        Step::Stop { sel: s, fail } => format!("{} fail={fail:?}", sel(s)),
-        Step::Remove { sel: s, keep_dirs, fail } => format!("{} keep_dirs={keep_dirs} fail={fail:?}", sel(s)),
-        Step::Upgrade { sel: s, force, do_not_start, ver, env, fail, silent, .. } => format!(
-            "{} force={force} do_not_start={do_not_start} to={} env={env:?} fail={fail:?} silent={silent}",
+        Step::Start { sel: s, interval, fail, silent, die_at } => format!("{} interval={interval} fail={fail:?} silent={silent} die_at={die_at:?}", sel(s)),
+        Step::Stop { sel: s, fail, die_at } => format!("{} fail={fail:?} die_at={die_at:?}", sel(s)),
+        Step::Remove { sel: s, keep_dirs, fail, die_at } => format!("{} keep_dirs={keep_dirs} fail={fail:?} die_at={die_at:?}", sel(s)),
+        Step::Upgrade { sel: s, force, do_not_start, ver, env, fail, silent, die_at, .. } => format!(
+            "{} force={force} do_not_start={do_not_start} to={} env={env:?} fail={fail:?} silent={silent} die_at={die_at:?}",
             sel(s),
             UPGRADE_VERSIONS[*ver as usize % UPGRADE_VERSIONS.len()]
         ),
